@@ -29,7 +29,11 @@ import (
 	"verif/ref/rtspref"
 )
 
-var creds = []string{"right", "right", "wrong-pass", "wrong-user", "missing", "wrong-scheme", "malformed", "replayed", "ignore-401", "skip-describe"}
+var creds = []string{"right", "right", "right", "wrong-pass", "wrong-user", "missing", "wrong-scheme", "malformed", "replayed", "ignore-401", "skip-describe",
+	"pass-prefix", "pass-prefix", "user-prefix", "response-prefix", "pass-other-case", "pass-one-char"}
+
+// second credentials presented on the SAME connection after the first attempt ("" = none)
+var thens = []string{"", "", "right", "wrong-pass", "malformed", "malformed", "wrong-scheme", "missing", "pass-prefix", "unknown-scheme"}
 
 type RtspAuthCase struct {
 	Method  int    `json:"method"` // -1 authentication off, 0 Basic, 1 Digest
@@ -41,6 +45,9 @@ type RtspAuthCase struct {
 	Ws      bool   `json:"ws,omitempty"`    // RTSP over WebSocket (rtsp.WebsocketServer)
 	Uri     int    `json:"uri,omitempty"`   // index into rtspAuthURIs (stream name / query of the request URI)
 	Order   int    `json:"order,omitempty"` // layout of the Digest header fields
+	K       int    `json:"k,omitempty"`     // prefix length / position selector of the near-miss credentials
+	Then    string `json:"then,omitempty"`  // a further DESCRIBE on the same connection with these credentials
+	ThenVar int    `json:"then_var,omitempty"`
 }
 
 // stream names and queries of the request URI (the Digest uri field and HA2 follow the request URI)
@@ -89,6 +96,9 @@ func genRtspAuth(t *rapid.T) RtspAuthCase {
 	c.Ws = rapid.IntRange(0, 3).Draw(t, "ws") == 0
 	c.Uri = rapid.IntRange(0, len(rtspAuthURIs)-1).Draw(t, "uri")
 	c.Order = rapid.IntRange(0, 2).Draw(t, "order")
+	c.K = rapid.SampledFrom([]int{0, 0, 0, 1, 1, 2, 3, 5, 8, 13, 21, 30}).Draw(t, "k")
+	c.Then = rapid.SampledFrom(thens).Draw(t, "then")
+	c.ThenVar = rapid.IntRange(0, 7).Draw(t, "thenVar")
 	return c
 }
 
@@ -119,8 +129,11 @@ func md5x(s string) string { return md5hex(s) }
 
 // digestHeader renders RFC 2617 Digest credentials (no qop); quotes and backslashes inside quoted-strings are
 // escaped, the field layout varies.
-func digestHeader(user, pass, realm, nonce, method, uri string, order int) string {
+func digestHeader(user, pass, realm, nonce, method, uri string, order int, respLen ...int) string {
 	resp := md5x(md5x(user+":"+realm+":"+pass) + ":" + nonce + ":" + md5x(method+":"+uri))
+	if len(respLen) == 1 && respLen[0] >= 0 && respLen[0] < len(resp) {
+		resp = resp[:respLen[0]] // a proper prefix of the right response
+	}
 	q := func(s string) string {
 		return `"` + strings.ReplaceAll(strings.ReplaceAll(s, `\`, `\\`), `"`, `\"`) + `"`
 	}
@@ -154,7 +167,53 @@ func (c RtspAuthCase) header(kind string, challenge string) string {
 	if m < 0 {
 		m = c.Variant % 2
 	}
+	// prefixLen picks a proper prefix length of an n-character string: n-1 (K=0), 1 (K=1), else K mod n (0 = empty)
+	prefixLen := func(n int) int {
+		switch {
+		case c.K == 0:
+			return n - 1
+		case c.K == 1 && n > 1:
+			return 1
+		}
+		return c.K % n
+	}
 	switch kind {
+	case "pass-prefix":
+		r := []rune(c.Pass)
+		if len(r) == 0 {
+			return build(m, c.User, c.Pass+"x")
+		}
+		return build(m, c.User, string(r[:prefixLen(len(r))]))
+	case "user-prefix":
+		r := []rune(c.User)
+		return build(m, string(r[:prefixLen(len(r))]), c.Pass)
+	case "response-prefix":
+		if m == 1 {
+			return digestHeader(c.User, c.Pass, realm, nonce, "DESCRIBE", uri, c.Order, prefixLen(32))
+		}
+		// Basic: the base64 text cut short by one to three characters
+		b := rtspref.BasicAuth(c.User, c.Pass)
+		return b[:len(b)-1-c.K%3]
+	case "pass-other-case":
+		sw := swapCase(c.Pass)
+		if sw == c.Pass {
+			return build(m, c.User, c.Pass+"x")
+		}
+		return build(m, c.User, sw)
+	case "pass-one-char":
+		r := []rune(c.Pass)
+		if len(r) == 0 {
+			return build(m, c.User, "x")
+		}
+		i := c.K % len(r)
+		if r[i] == 'x' {
+			r[i] = 'y'
+		} else {
+			r[i] = 'x'
+		}
+		return build(m, c.User, string(r))
+	case "unknown-scheme":
+		return []string{"Bearer zzz", "Negotiate abc", "basic " + base64.StdEncoding.EncodeToString([]byte(c.User+"#:"+c.Pass)), "Token " + c.Pass}[c.ThenVar%4]
 	case "right", "replayed":
 		return build(m, c.User, c.Pass)
 	case "wrong-pass":
@@ -185,6 +244,19 @@ func (c RtspAuthCase) header(kind string, challenge string) string {
 		}
 	}
 	panic(pbt.HarnessError{Msg: "bad cred " + kind})
+}
+
+func swapCase(s string) string {
+	r := []rune(s)
+	for i, ch := range r {
+		switch {
+		case ch >= 'a' && ch <= 'z':
+			r[i] = ch - 32
+		case ch >= 'A' && ch <= 'Z':
+			r[i] = ch + 32
+		}
+	}
+	return string(r)
 }
 
 func (c RtspAuthCase) methodName() string {
@@ -238,6 +310,34 @@ func runRtspAuth(c RtspAuthCase) *pbt.Violation {
 		}
 		if l, what := listed(s, stream, conn.LocalAddr().String()); l {
 			return pbt.V("rtsp-auth/unauthorised-session-listed", "a client that %s went on to SETUP / PLAY (%s) and is listed by the stat API as %s [%s]", how, trace, what, ctx), true
+		}
+		return nil, false
+	}
+
+	// second: a further DESCRIBE on the same connection, judged by the credentials it carries itself
+	second := func(rc *rtspref.Client, challenge string, firstValid bool, d1 describeResult, hdr1 string) (*pbt.Violation, bool) {
+		if d1.err != nil {
+			return nil, false // lal closed the connection after the first attempt: no retry possible on it
+		}
+		hdr2 := ""
+		if c.Then != "missing" {
+			saved := c.Variant
+			c.Variant = c.ThenVar
+			hdr2 = c.header(c.Then, challenge)
+			c.Variant = saved
+		}
+		d2 := describe(rc, uri, hdr2)
+		if isTimeout(d2.err) {
+			return inconclusive("rtsp-auth-describe-2"), true
+		}
+		valid2 := c.Then == "right"
+		switch {
+		case valid2 && !d2.sdp:
+			return pbt.V("rtsp-auth/valid-"+c.methodName()+"-refused-on-retry", "after a DESCRIBE with %s credentials (%s -> %s) a DESCRIBE with valid credentials (%s) on the same connection did not get the stream description: %s [%s]", c.Cred, hdr1, d1, hdr2, d2, ctx), true
+		case !valid2 && d2.sdp && firstValid:
+			return pbt.V("rtsp-auth/stale-credentials-accepted", "after a DESCRIBE with valid credentials (%s) a further DESCRIBE on the same connection carrying %s credentials (Authorization: %q) got the stream description [%s]", hdr1, c.Then, hdr2, ctx), true
+		case !valid2 && d2.sdp:
+			return pbt.V("rtsp-auth/invalid-credentials-accepted", "DESCRIBE with %s credentials (Authorization: %q), second attempt on the connection, got the stream description [%s]", c.Then, hdr2, ctx), true
 		}
 		return nil, false
 	}
@@ -303,6 +403,12 @@ func runRtspAuth(c RtspAuthCase) *pbt.Violation {
 			return hdr, validRefused(kind, d1, hdr), true
 		case !valid && d1.sdp:
 			return hdr, pbt.V("rtsp-auth/invalid-credentials-accepted", "DESCRIBE with %s credentials (Authorization: %s) got the stream description [%s]", kind, hdr, ctx), true
+		}
+		if c.Then != "" && kind == c.Cred {
+			if v, stop := second(rc, d0.challenge, valid, d1, hdr); v != nil || stop {
+				return hdr, v, true
+			}
+			return hdr, nil, false
 		}
 		if !valid && c.Variant%2 == 0 {
 			// refused credentials: the client tries to play all the same (same connection if it is still there)
@@ -380,6 +486,23 @@ func classifyRtspAuth(c RtspAuthCase) (bool, []string) {
 	if c.Method == 1 {
 		labels = append(labels, fmt.Sprintf("digest-layout:%d", c.Order%3))
 	}
+	if c.Then != "" && c.Method >= 0 {
+		first := "invalid"
+		if c.Cred == "right" || c.Cred == "replayed" {
+			first = "valid"
+		}
+		labels = append(labels, "same-connection:"+first+"-then-"+c.Then)
+	}
+	switch c.Cred {
+	case "pass-prefix", "user-prefix", "response-prefix":
+		kc := "n-1"
+		if c.K == 1 {
+			kc = "1"
+		} else if c.K > 1 {
+			kc = "k-mod-n"
+		}
+		labels = append(labels, "prefix-length:"+kc)
+	}
 	if c.Cred == "malformed" {
 		labels = append(labels, fmt.Sprintf("malformed:%d", c.Variant))
 	}
@@ -389,6 +512,6 @@ func classifyRtspAuth(c RtspAuthCase) (bool, []string) {
 func TestRtspAuth(t *testing.T) {
 	pbt.Run(t, pbt.Spec[RtspAuthCase]{
 		ID: "C14", Name: "rtsp-auth", Gen: genRtspAuth, Run: runRtspAuth, Classify: classifyRtspAuth,
-		Quick: 500, Thorough: 2500,
+		Quick: 400, Thorough: 2500,
 	})
 }
